@@ -87,7 +87,8 @@ def call_all(prog, pkg, rec, twin, rev=False):
                 try:
                     o = ["ret", fn(x)]
                 except Exception as e:
-                    o = ["raise", type(e).__name__, str(e)[:200]]
+                    # (a replayed failure carries the stored trace after the original message)
+                    o = ["raise", type(e).__name__, str(e).split(". Original stack trace")[0][:200]]
                 res.append([o, [e[0] for e in rec.since(mark)]])
             out[nd["name"] + ("" if x == 1 else "@%d" % x)] = res
     return out
